@@ -87,4 +87,29 @@ def run(ctx):
     for g, frac in ([("i11", 1.0), ("i23", 1.0), ("ed37", 1.0), ("i31", 1.0), ("i43", 1.0), ("i71", 1.0), ("ed53", 1.0),
                      ("i47", 0.2), ("ed109", 0.5)] if thorough else [("i11", 1.0), ("ed37", 1.0), ("i23", 0.25)]):
         traces += toy_replay(ctx, uni, mp, g, frac)
-    ctx.validate(traces, uni, what="toy exchange")
+    # shipped parameter sets and custom seeds: edge-scalar grid x password/identity list, with and without restore.
+    # Includes x = 0 / y = 0 (the element sent is w*M resp. w*N, the intermediate Y* - w*N is the identity) and x = q-1.
+    pws = [b"", b"\x00", b"password", b"p" * 65, b"\x00\x01\xfe\xff", "pässwörd".encode(), b"q" * 200]
+    idl = [(b"", b""), (b"alice", b"bob"), (b"\x00", b"\xff\x00"), (b"i" * 70, b"j")]
+    sets = [("PEd25519", "Ed25519"), ("P1024", "I1024"), ("P2048", "I2048"), ("P3072", "I3072")]
+    for ps, g in sets:
+        uni.paramset(ps)
+    uni.paramset("P2048-custom", grp="I2048", M=b"m", N=b"n", S=b"s")
+    sets.append(("P2048-custom", "I2048"))
+    for ps, g in sets:
+        q = uni.group(g).order()
+        edge = [0, 1, 2, q - 1, q - 2, (q - 1) // 2, (q + 1) // 2, 2 ** 64]
+        grid = [(x, y) for x in edge for y in edge] if thorough else \
+            [(0, 0), (0, 1), (1, 0), (q - 1, 1), (1, q - 1), (q - 1, q - 1), (0, q - 1), (2, (q + 1) // 2)]
+        grid += [(ctx.rng.randrange(q), ctx.rng.randrange(q)) for _ in range(30 if thorough else 2)]
+        if ps == "P2048-custom" and not thorough:
+            grid = grid[:3]
+        for k, (x, y) in enumerate(grid):
+            pairing = "AB" if k % 3 else "SS"
+            ids = idl[k % len(idl)] if pairing == "AB" else (idl[k % len(idl)][0],)
+            pw = pws[k % len(pws)]
+            r = exchange(uni, "shipped/%s/%s/%d" % (ps, pairing, k), pairing, ps, pw, pw, ids, ids,
+                         mp.stream_for(g, x, redraws=k % 2, k=k % 3), mp.stream_for(g, y, k=(k + 1) % 3),
+                         restoreA=k % 2, restoreB=(k // 2) % 2)
+            traces.append(r.json())
+    ctx.validate(traces, uni, what="exchange")
